@@ -515,7 +515,97 @@ func (g *c44gen) scenario(kind int) [][]c44op {
 	}
 }
 
+// ---- the preference order itself: the real wlIdsAscending on clusters of string identifiers
+var c44strPool = []string{"", "a", "ab", "abc", "b", "k8s", "k8s-", "k8", "openstack", "cni", "pod-10a", "pod-11a", "pod-9",
+	"pod-9/x", "default/pod", "default/pod-", "eth0", "ep", "ep1", "ep10", "ep2", "EP1", "\xc3\xa9", "\x7f", "\xff", "z"}
+
+func c44bytes(s string) string {
+	b := make([]string, len(s))
+	for i := 0; i < len(s); i++ {
+		b[i] = strconv.Itoa(int(s[i]))
+	}
+	return "[" + strings.Join(b, ";") + "]"
+}
+
+func c44orderCase(r *c44rng) c44line {
+	type sid [3]string
+	pick := func() string { return c44strPool[r.intn(len(c44strPool))] }
+	n := 3 + r.intn(3)
+	var ids []sid
+	tags := map[string]bool{}
+	for len(ids) < n {
+		var c sid
+		switch k := r.intn(10); {
+		case k < 2 || len(ids) == 0:
+			c = sid{pick(), pick(), pick()}
+		case k < 4: // same orchestrator as an earlier id
+			c = sid{ids[r.intn(len(ids))][0], pick(), pick()}
+		case k < 6: // same orchestrator and workload
+			p := ids[r.intn(len(ids))]
+			c = sid{p[0], p[1], pick()}
+		case k < 9: // same orchestrator, workload and endpoint cross over
+			p := ids[r.intn(len(ids))]
+			c = sid{p[0], pick(), pick()}
+			if (c[1] < p[1]) == (c[2] < p[2]) {
+				c[1], c[2] = p[1]+"x", ""
+				if p[2] == "" {
+					c[1], c[2] = "", "x"
+					if p[1] == "" {
+						c = sid{p[0], "m", ""}
+					}
+				}
+			}
+		default: // an exact duplicate
+			c = ids[r.intn(len(ids))]
+			tags["order:duplicate"] = true
+		}
+		ids = append(ids, c)
+	}
+	crossing := false
+	var idsC, idsT, rows []string
+	var mat [][]bool
+	for _, a := range ids {
+		idsC = append(idsC, fmt.Sprintf("(%s,%s,%s)", c44bytes(a[0]), c44bytes(a[1]), c44bytes(a[2])))
+		idsT = append(idsT, fmt.Sprintf("%q/%q/%q", a[0], a[1], a[2]))
+		if a[0] == "" || a[1] == "" || a[2] == "" {
+			tags["order:empty-component"] = true
+		}
+		var row []string
+		var brow []bool
+		for _, b := range ids {
+			if a[0] == b[0] && a[1] != b[1] && a[2] != b[2] && (a[1] < b[1]) != (a[2] < b[2]) {
+				crossing = true
+			}
+			x := types.WorkloadEndpointID{OrchestratorId: a[0], WorkloadId: a[1], EndpointId: a[2]}
+			y := types.WorkloadEndpointID{OrchestratorId: b[0], WorkloadId: b[1], EndpointId: b[2]}
+			res := wlIdsAscending(&x, &y)
+			row = append(row, fmt.Sprintf("%v", res))
+			brow = append(brow, res)
+		}
+		rows = append(rows, "["+strings.Join(row, ";")+"]")
+		mat = append(mat, brow)
+	}
+	if crossing {
+		tags["order:workload-endpoint-cross"] = true
+	}
+	tl := []string{"stream:order", fmt.Sprintf("order-ids:%d", n)}
+	for t := range tags {
+		tl = append(tl, t)
+	}
+	sort.Strings(tl)
+	return c44line{
+		Coq:    "(COrd [" + strings.Join(idsC, ";") + "] [" + strings.Join(rows, ";") + "])",
+		NT:     crossing,
+		Key:    "order " + strings.Join(idsT, " | "),
+		Sample: map[string]any{"ids": idsT, "wlIdsAscending(row,column)": mat},
+		Tags:   tl,
+	}
+}
+
 func c44case(r *c44rng, idx int, fixed [][]c44op) c44line {
+	if fixed == nil && idx%10 == 9 {
+		return c44orderCase(r)
+	}
 	g := &c44gen{r: r, live: map[c44id]c44ep{}, tags: map[string]bool{}}
 	stream := "random"
 	switch {
@@ -624,7 +714,7 @@ func c44case(r *c44rng, idx int, fixed [][]c44op) c44line {
 	sort.Strings(tags)
 	_ = panicked
 	return c44line{
-		Coq:    "(mkCase [" + strings.Join(coqB, ";") + "])",
+		Coq:    "(CHist (mkCase [" + strings.Join(coqB, ";") + "]))",
 		NT:     g.shared,
 		Key:    strings.Join(keyB, " | "),
 		Sample: map[string]any{"batches": sample},
